@@ -55,4 +55,199 @@ theorem hitTime_unique (N : Nat) (hN : 0 < N) (m : Nat → Rat) (h : HitTimeEq N
     (by intro y hy hyN; rw [h.2.2 y hy hyN, he.2.2 y hy hyN]; ring) x hx
   linarith
 
+/-! ### the walk's own finite-horizon law of the exit time, and its convergence to x·(N−x) -/
+
+theorem stepsBy_succ (N t x : Nat) :
+    stepsBy N (t + 1) x = if x = 0 then 0 else if N ≤ x then 0 else 1 + (stepsBy N t (x - 1) + stepsBy N t (x + 1)) / 2 := by
+  simp [stepsBy]
+
+theorem stepsBy_out (N t x : Nat) (h : x = 0 ∨ N ≤ x) : stepsBy N t x = 0 := by
+  cases t with
+  | zero => simp [stepsBy]
+  | succ t =>
+    rw [stepsBy_succ]
+    rcases h with h | h
+    · simp [h]
+    · by_cases hx : x = 0
+      · simp [hx]
+      · simp [hx, h]
+
+/-- the capped expectation never exceeds the closed form x·(N−x), and the gap shrinks geometrically -/
+theorem stepsBy_gap (N : Nat) (hN : 0 < N) :
+    ∀ t x, x ≤ N → 0 ≤ exitTime N x - stepsBy N t x
+      ∧ exitTime N x - stepsBy N t x ≤ rho N ^ t * ((x : Rat) * ((N : Rat) - (x : Rat)) + 1) := by
+  have hρ := rho_nonneg N
+  intro t
+  induction t with
+  | zero =>
+    intro x hx
+    have hxN : (x : Rat) ≤ (N : Rat) := by exact_mod_cast hx
+    have hx0 : (0 : Rat) ≤ (x : Rat) := by positivity
+    have hprod : 0 ≤ (x : Rat) * ((N : Rat) - (x : Rat)) := mul_nonneg hx0 (by linarith)
+    simp only [stepsBy, exitTime, sub_zero, pow_zero, one_mul]
+    exact ⟨hprod, by linarith⟩
+  | succ t ih =>
+    intro x hx
+    have hxN : (x : Rat) ≤ (N : Rat) := by exact_mod_cast hx
+    have hx0 : (0 : Rat) ≤ (x : Rat) := by positivity
+    have hprod : 0 ≤ (x : Rat) * ((N : Rat) - (x : Rat)) := mul_nonneg hx0 (by linarith)
+    have hpow : 0 ≤ rho N ^ (t + 1) := pow_nonneg hρ _
+    have hrhs : 0 ≤ rho N ^ (t + 1) * ((x : Rat) * ((N : Rat) - (x : Rat)) + 1) :=
+      mul_nonneg hpow (by linarith)
+    by_cases hx0' : x = 0
+    · subst hx0'
+      rw [stepsBy_out N _ 0 (Or.inl rfl)]
+      simp only [exitTime]
+      constructor
+      · simp
+      · simpa using hrhs
+    · by_cases hxn : N ≤ x
+      · have : x = N := by omega
+        subst this
+        rw [stepsBy_out x _ x (Or.inr (le_refl _))]
+        simp only [exitTime]
+        constructor
+        · simp
+        · simpa using hrhs
+      · obtain ⟨y, rfl⟩ : ∃ y, x = y + 1 := ⟨x - 1, by omega⟩
+        have h1 := ih y (by omega)
+        have h2 := ih (y + 2) (by omega)
+        have hh := (exitTime_eq N).2.2 (y + 1) (by omega) (by omega)
+        simp only [Nat.add_sub_cancel] at hh
+        rw [stepsBy_succ]
+        simp only [hx0', hxn, if_false, Nat.add_sub_cancel]
+        rw [hh]
+        have hpt : 0 ≤ rho N ^ t := pow_nonneg hρ _
+        have key := rho_key N ((y : Rat) + 1)
+        have e2 : y + 1 + 1 = y + 2 := rfl
+        rw [e2]
+        push_cast at h1 h2 ⊢
+        constructor
+        · linarith [h1.1, h2.1]
+        · have hsum : (1 + (exitTime N y + exitTime N (y + 2)) / 2) - (1 + (stepsBy N t y + stepsBy N t (y + 2)) / 2)
+              ≤ rho N ^ t * (((y : Rat) + 1) * ((N : Rat) - ((y : Rat) + 1))) := by
+            have e : rho N ^ t * (((y : Rat) + 1) * ((N : Rat) - ((y : Rat) + 1)))
+                = (rho N ^ t * ((y : Rat) * ((N : Rat) - (y : Rat)) + 1)
+                   + rho N ^ t * (((y : Rat) + 2) * ((N : Rat) - ((y : Rat) + 2)) + 1)) / 2 := by ring
+            rw [e]
+            linarith [h1.2, h2.2]
+          calc (1 + (exitTime N y + exitTime N (y + 2)) / 2) - (1 + (stepsBy N t y + stepsBy N t (y + 2)) / 2)
+              ≤ rho N ^ t * (((y : Rat) + 1) * ((N : Rat) - ((y : Rat) + 1))) := hsum
+            _ ≤ rho N ^ t * (rho N * (((y : Rat) + 1) * ((N : Rat) - ((y : Rat) + 1)) + 1)) :=
+                mul_le_mul_of_nonneg_left key hpt
+            _ = rho N ^ (t + 1) * (((y : Rat) + 1) * ((N : Rat) - ((y : Rat) + 1)) + 1) := by
+                rw [pow_succ]; ring
+
+/-! ### finite-horizon law of the time to the top on the event "top first" -/
+
+theorem hitStepsBy_succ (N t x : Nat) :
+    hitStepsBy N (t + 1) x = if x = 0 then 0 else if N ≤ x then 0
+      else (hitStepsBy N t (x - 1) + hitStepsBy N t (x + 1)) / 2 + reachBy N (t + 1) x := by
+  simp [hitStepsBy]
+
+theorem hitStepsBy_out (N t x : Nat) (h : x = 0 ∨ N ≤ x) : hitStepsBy N t x = 0 := by
+  cases t with
+  | zero => simp [hitStepsBy]
+  | succ t =>
+    rw [hitStepsBy_succ]
+    rcases h with h | h
+    · simp [h]
+    · by_cases hx : x = 0
+      · simp [hx]
+      · simp [hx, h]
+
+theorem hitTime_le_v (N : Nat) (hN : 0 < N) (x : Nat) (hx : x ≤ N) :
+    0 ≤ hitTime N x ∧ hitTime N x ≤ (x : Rat) * ((N : Rat) - (x : Rat)) + 1 := by
+  have hN' : (0 : Rat) < (N : Rat) := by exact_mod_cast hN
+  have hxN : (x : Rat) ≤ (N : Rat) := by exact_mod_cast hx
+  have hx0 : (0 : Rat) ≤ (x : Rat) := by positivity
+  have h3 : (0 : Rat) < 3 * (N : Rat) := by linarith
+  have hprod : 0 ≤ (x : Rat) * ((N : Rat) - (x : Rat)) := mul_nonneg hx0 (by linarith)
+  unfold hitTime
+  constructor
+  · apply div_nonneg _ (le_of_lt h3)
+    have : (N : Rat) * (N : Rat) - (x : Rat) * (x : Rat) = ((N : Rat) - (x : Rat)) * ((N : Rat) + (x : Rat)) := by ring
+    rw [this]
+    exact mul_nonneg hx0 (mul_nonneg (by linarith) (by linarith))
+  · rw [div_le_iff₀ h3]
+    have e : (x : Rat) * ((N : Rat) * (N : Rat) - (x : Rat) * (x : Rat))
+        = ((x : Rat) * ((N : Rat) - (x : Rat))) * ((N : Rat) + (x : Rat)) := by ring
+    rw [e]
+    have : ((x : Rat) * ((N : Rat) - (x : Rat))) * ((N : Rat) + (x : Rat))
+        ≤ ((x : Rat) * ((N : Rat) - (x : Rat))) * (3 * (N : Rat)) :=
+      mul_le_mul_of_nonneg_left (by linarith) hprod
+    nlinarith
+
+/-- 0 ≤ hitTime N x − E[τ·1{N first, τ ≤ t}] ≤ (t+1)·ρ^t·(x(N−x)+1) -/
+theorem hitStepsBy_gap (N : Nat) (hN : 0 < N) :
+    ∀ t x, x ≤ N → 0 ≤ hitTime N x - hitStepsBy N t x
+      ∧ hitTime N x - hitStepsBy N t x ≤ ((t : Rat) + 1) * rho N ^ t * ((x : Rat) * ((N : Rat) - (x : Rat)) + 1) := by
+  have hρ := rho_nonneg N
+  intro t
+  induction t with
+  | zero =>
+    intro x hx
+    have := hitTime_le_v N hN x hx
+    simp only [hitStepsBy, sub_zero, pow_zero, Nat.cast_zero, zero_add, one_mul]
+    exact this
+  | succ t ih =>
+    intro x hx
+    have hxN : (x : Rat) ≤ (N : Rat) := by exact_mod_cast hx
+    have hx0 : (0 : Rat) ≤ (x : Rat) := by positivity
+    have hprod : 0 ≤ (x : Rat) * ((N : Rat) - (x : Rat)) := mul_nonneg hx0 (by linarith)
+    have hpow : 0 ≤ rho N ^ (t + 1) := pow_nonneg hρ _
+    have ht0 : (0 : Rat) ≤ (t : Rat) := by positivity
+    have hrhs : 0 ≤ (((t + 1 : Nat) : Rat) + 1) * rho N ^ (t + 1) * ((x : Rat) * ((N : Rat) - (x : Rat)) + 1) := by
+      push_cast
+      exact mul_nonneg (mul_nonneg (by linarith) hpow) (by linarith)
+    by_cases hx0' : x = 0
+    · subst hx0'
+      rw [hitStepsBy_out N _ 0 (Or.inl rfl)]
+      have : hitTime N 0 = 0 := by simp [hitTime]
+      rw [this]
+      exact ⟨by simp, by simpa using hrhs⟩
+    · by_cases hxn : N ≤ x
+      · have : x = N := by omega
+        subst this
+        rw [hitStepsBy_out x _ x (Or.inr (le_refl _))]
+        have : hitTime x x = 0 := by simp [hitTime]
+        rw [this]
+        exact ⟨by simp, by simpa using hrhs⟩
+      · obtain ⟨y, rfl⟩ : ∃ y, x = y + 1 := ⟨x - 1, by omega⟩
+        have h1 := ih y (by omega)
+        have h2 := ih (y + 2) (by omega)
+        have hh := (hitTime_eq N hN).2.2 (y + 1) (by omega) (by omega)
+        simp only [Nat.add_sub_cancel] at hh
+        have hr1 := reachBy_le_ruin N hN (t + 1) (y + 1) (by omega)
+        have hr2 := reachBy_gap N hN (t + 1) (y + 1) (by omega)
+        rw [hitStepsBy_succ]
+        simp only [hx0', hxn, if_false, Nat.add_sub_cancel]
+        rw [hh]
+        have hpt : 0 ≤ rho N ^ t := pow_nonneg hρ _
+        have key := rho_key N ((y : Rat) + 1)
+        have e2 : y + 1 + 1 = y + 2 := rfl
+        rw [e2]
+        push_cast at h1 h2 hr2 ⊢
+        constructor
+        · linarith [h1.1, h2.1]
+        · -- average of the two induction hypotheses
+          have havg : (hitTime N y + hitTime N (y + 2)) / 2 - (hitStepsBy N t y + hitStepsBy N t (y + 2)) / 2
+              ≤ ((t : Rat) + 1) * rho N ^ t * (((y : Rat) + 1) * ((N : Rat) - ((y : Rat) + 1))) := by
+            have e : ((t : Rat) + 1) * rho N ^ t * (((y : Rat) + 1) * ((N : Rat) - ((y : Rat) + 1)))
+                = (((t : Rat) + 1) * rho N ^ t * ((y : Rat) * ((N : Rat) - (y : Rat)) + 1)
+                   + ((t : Rat) + 1) * rho N ^ t * (((y : Rat) + 2) * ((N : Rat) - ((y : Rat) + 2)) + 1)) / 2 := by ring
+            rw [e]
+            linarith [h1.2, h2.2]
+          have hstep : ((t : Rat) + 1) * rho N ^ t * (((y : Rat) + 1) * ((N : Rat) - ((y : Rat) + 1)))
+              ≤ ((t : Rat) + 1) * rho N ^ t * (rho N * (((y : Rat) + 1) * ((N : Rat) - ((y : Rat) + 1)) + 1)) :=
+            mul_le_mul_of_nonneg_left key (mul_nonneg (by linarith) hpt)
+          have e3 : ((t : Rat) + 1) * rho N ^ t * (rho N * (((y : Rat) + 1) * ((N : Rat) - ((y : Rat) + 1)) + 1))
+              = ((t : Rat) + 1) * rho N ^ (t + 1) * (((y : Rat) + 1) * ((N : Rat) - ((y : Rat) + 1)) + 1) := by
+            rw [pow_succ]; ring
+          have e4 : ((t : Rat) + 1 + 1) * rho N ^ (t + 1) * (((y : Rat) + 1) * ((N : Rat) - ((y : Rat) + 1)) + 1)
+              = ((t : Rat) + 1) * rho N ^ (t + 1) * (((y : Rat) + 1) * ((N : Rat) - ((y : Rat) + 1)) + 1)
+                + rho N ^ (t + 1) * (((y : Rat) + 1) * ((N : Rat) - ((y : Rat) + 1)) + 1) := by ring
+          rw [e4]
+          linarith
+
 end Infretis.LatticeMoves
